@@ -37,6 +37,7 @@ ASSUMPTIONS = ["memo caches start empty at the beginning of each history (fresh 
 REQUIRED_REACH = ['C04.span', 'C04.empty', 'C04.followers', 'C04.span.after_growth']
 EXHAUSTIVE = {'quick': True, 'thorough': False}
 JOB_OPTS = {'quick': dict(max_paths=4000, max_seconds=300), 'thorough': dict(max_paths=20000, max_seconds=900)}
+TRUNCATION_OK = {'quick': 4, 'thorough': 20}   # sampled tier: this many random jobs may exhaust their path/time budget (listed as truncated in the evidence)
 
 ALPHA = [['W', 0, 'ALL'], ['W', 1, 'ALL'], ['W', 0, 'MW'], ['W', 0, 'FL']]
 ALPHA_SMALL = [['W', 0, 'ALL'], ['W', 1, 'ALL'], ['W', 0, 'MW']]
